@@ -146,6 +146,38 @@ pub mod sync {
                 }
             }
         }
+        fn advance(current: u64, offset: u32) -> u64 {
+            ((((current >> 32) as u32).wrapping_add(1) as u64) << 32) | offset as u64
+        }
+        fn same_generation(current: u64, offset: u32) -> u64 {
+            (current & 0xFFFF_FFFF_0000_0000) | offset as u64
+        }
+        pub fn ok_pop_helper(&self) -> Option<u32> {
+            loop {
+                let cur = self.head.load(Ordering::Acquire);
+                let off = cur as u32;
+                if off == u32::MAX {
+                    return None;
+                }
+                let next = unsafe { *self.mem.add(off as usize) };
+                if self.head.compare_exchange_weak(cur, Self::advance(cur, next), Ordering::Release, Ordering::Relaxed).is_ok() {
+                    return Some(off);
+                }
+            }
+        }
+        pub fn bad_pop_helper(&self) -> Option<u32> {
+            loop {
+                let cur = self.head.load(Ordering::Acquire);
+                let off = cur as u32;
+                if off == u32::MAX {
+                    return None;
+                }
+                let next = unsafe { *self.mem.add(off as usize) };
+                if self.head.compare_exchange_weak(cur, Self::same_generation(cur, next), Ordering::Release, Ordering::Relaxed).is_ok() {
+                    return Some(off);
+                }
+            }
+        }
     }
 }
 
@@ -243,6 +275,49 @@ pub mod pair {
         match kind {
             Kind::Short => (input[0] as u32, input[1]),
             Kind::Long => (u32::from_le_bytes([input[0], input[1], input[2], input[3]]), input[4]),
+        }
+    }
+}
+
+// ---------------------------------------------------------------- R-PAIR.marker
+pub mod marker {
+    pub trait DataOutput {
+        fn write_u8(&mut self, v: u8) -> Result<(), String>;
+        fn write_u32(&mut self, v: u32) -> Result<(), String>;
+    }
+    pub trait DataInput {
+        fn read_u8(&mut self) -> Result<u8, String>;
+        fn read_u32(&mut self) -> Result<u32, String>;
+    }
+    pub fn write_field<O: DataOutput>(present: bool, v: u32, out: &mut O) -> Result<(), String> {
+        if present {
+            out.write_u8(1)?;
+            out.write_u32(v)
+        } else {
+            out.write_u8(0)?;
+            Ok(())
+        }
+    }
+    pub fn ok_read_field<I: DataInput>(wanted: bool, input: &mut I) -> Result<Option<u32>, String> {
+        match input.read_u8()? {
+            0 => Ok(None),
+            1 => {
+                if wanted {
+                    Ok(Some(input.read_u32()?))
+                } else {
+                    let _ = input.read_u32()?;
+                    Ok(None)
+                }
+            }
+            _ => Err("marker".to_string()),
+        }
+    }
+    pub fn bad_read_field<I: DataInput>(wanted: bool, input: &mut I) -> Result<Option<u32>, String> {
+        match input.read_u8()? {
+            0 => Ok(None),
+            1 if wanted => Ok(Some(input.read_u32()?)),
+            1 => Ok(None),
+            _ => Err("marker".to_string()),
         }
     }
 }
